@@ -124,14 +124,18 @@ Definition oelems_eqb (x : option (list elem)) (y : list elem) : bool :=
   match x with Some l => list_eqb elem_eqb l y | None => false end.
 
 (* one driver case: interval, flattened argument before the call, flattened result,
-   flattened argument after the call, flattened result of transposing the result back *)
-Definition driver_case := (Z * Z * bool * list elem * list elem * list elem * list elem)%type.
+   flattened argument after the call, flattened result of transposing the result back.
+   For the last two, None stands for "identical to the first list" (the harness compared the
+   complete fingerprints; the list is not printed twice). *)
+Definition driver_case := (Z * Z * bool * list elem * list elem * option (list elem) * option (list elem))%type.
+
+Definition same : option (list elem) := None.
 
 Definition driver_ok (c : driver_case) : bool :=
   let '(n, q, up, before, result, after, back) := c in
   oelems_eqb (transpose_elems n q up before) result &&
-  list_eqb elem_eqb before after &&
-  oelems_eqb (transpose_elems n q (negb up) result) back.
+  list_eqb elem_eqb before (match after with Some l => l | None => before end) &&
+  oelems_eqb (transpose_elems n q (negb up) result) (match back with Some l => l | None => before end).
 
 (* ---------- T2 tables: shape and checkers ---------- *)
 Definition row := (pitch * pitch)%type.                 (* input, output of the real function *)
